@@ -380,6 +380,53 @@ def fixed_in_templates():
                             **{'else': els}), T('>')]
 
 
+def fixed_value_kind_templates():
+    """Literal text around insertions of every kind of value (text, bytes,
+    number, None, callable result) at top level and in every block body: the
+    text comes out whatever was inserted next to it.  Bodies that consist of
+    one literal only, spelled like words the engine uses internally."""
+    T = lambda s: dict(k='text', s=s)
+    V = lambda n: dict(k='var', ref=dict(r='name', n=n), opts=[])
+    N = lambda n: dict(r='name', n=n)
+    runs = [[T('Dear '), V(a), T(', welcome to <'), V(b), T('>!\n')]
+            for a, b in (('vby', 'va'), ('va', 'vby'), ('vby', 'vby'),
+                         ('vn', 'vby'), ('vby', 'vnone'), ('fa', 'vby'))]
+    words = ['i', 'if', 'item', 'is not', 'in "%" <d', 'v', 'var', 'e',
+             'else', 't', 'try', 's', 'sequence-item', '0', "('i',)", 'None']
+    bodies = runs + [[T(w)] for w in words]
+    wraps = {
+        'top': lambda b: b,
+        'if': lambda b: [dict(k='if', conds=[N('ct')], bodies=[b],
+                              **{'else': None})],
+        'else': lambda b: [dict(k='if', conds=[N('cf')], bodies=[[T('no')]],
+                                **{'else': b})],
+        'elif': lambda b: [dict(k='if', conds=[N('cf'), N('ct')],
+                                bodies=[[T('no')], b], **{'else': [T('n')]})],
+        'elif-else': lambda b: [dict(k='if', conds=[N('cf'), N('vz')],
+                                     bodies=[[T('no')], [T('n')]],
+                                     **{'else': b})],
+        'unless': lambda b: [dict(k='unless', ref=N('cf'), body=b)],
+        'in': lambda b: [dict(k='in', ref=N('ss'), opts=[], body=b,
+                              **{'else': None})],
+        'in-else': lambda b: [dict(k='in', ref=N('s0'), opts=[],
+                                   body=[T('no')], **{'else': b})],
+        'with': lambda b: [dict(k='with', ref=N('oa'), mapping=False,
+                                only=False, body=b)],
+        'let': lambda b: [dict(k='let', binds=[['la', N('vb')]], body=b)],
+        'try': lambda b: [dict(k='try', body=b, handlers=[dict(
+            names=[], body=[T('h')])], **{'else': None, 'finally': None})],
+        'try-else': lambda b: [dict(k='try', body=[T('t')], handlers=[dict(
+            names=[], body=[T('h')])], **{'else': b, 'finally': None})],
+        'handler': lambda b: [dict(k='try', body=[V('fr')], handlers=[dict(
+            names=['VfA'], body=b)], **{'else': None, 'finally': None})],
+        'finally': lambda b: [dict(k='try', body=[T('t')], handlers=[],
+                                   **{'else': None, 'finally': b})],
+    }
+    for wn, w in sorted(wraps.items()):
+        for b in bodies:
+            yield [T('<')] + w(b) + [T('>')]
+
+
 def plan(tier, seed):
     n = 500 if tier == "quick" else 6000
     return [dict(seed=seed * 1000 + i, n=n) for i in range(16)] + \
@@ -403,6 +450,13 @@ def run_shard(shard):
                      distinct_by_construction=True)
             for b, msg in fails:
                 acc.fail(b + ':in-body', case, msg)
+        for i, ast in enumerate(fixed_value_kind_templates()):
+            case = dict(kind='template', ast=ast, style=[i % 51, i % 5])
+            fails, nt = check_template(case, acc)
+            acc.case(case, True, klass='fixed-value-kinds',
+                     distinct_by_construction=True)
+            for b, msg in fails:
+                acc.fail(b + ':value-kinds', case, msg)
         for text in near_miss_soups():
             case = dict(kind='soup', text=text)
             fails, nt = check_soup(case)
